@@ -1,4 +1,5 @@
 import BR.Lemmas.ConcDir
+import BR.Props.C05
 /-!
 # C07 — concurrent requests see whole values and never corrupt index or accounting (partial)
 
@@ -12,6 +13,9 @@ being corrupted at arbitrary moments.  For **every schedule** (any list of steps
 * `conc_directory`, `conc_quiescent_directory` — the files on disk are exactly the files of the
   tracked entries plus the completed files of uploads that have not committed; at quiescence
   directory = index (C04 under interleavings);
+* `acked_upload_is_indexed`, `indexed_entry_is_served` — a successful commit leaves the key indexed
+  with the uploaded item (when it fits next to the other reservations), and a lookup of an indexed
+  key whose file is intact returns that file's complete content;
 * `read_whole_value` — every read that returns data returns the complete bytes of one upload to the
   same key whose file had been completely written (never a torn, mixed or truncated value);
 * `step_total` — every BR.Conc.step is a total function of the state: no schedule blocks a request
@@ -106,6 +110,88 @@ theorem conc_quiescent_directory (M H : Int) (h0 : 0 ≤ M) (h1 : M < 9223372036
     obtain ⟨f, hf, hk, hr⟩ := h.t_file _ hqm
     exact List.mem_map.mpr ⟨f, hf, by simp [hk, hr]⟩
 
+/-- **an acknowledged upload is in the index**: when the commit region (`Unreserve` + `Add` under one
+lock) of an upload succeeds and the item fits next to the reservations of the *other* requests in
+flight, the key is indexed with exactly the uploaded item — whatever else is interleaved before
+and after; it stays there until space pressure evicts it or a failed read of that very file drops
+it (C05, `removeIfSame`). -/
+theorem acked_upload_is_indexed {l : Lru} (h : Inv l) (key : String) (n : Int) (item : Item) (hn : 0 < n) (hle : n ≤ l.res)
+    (hv : 0 ≤ item.sizeOnDisk ∧ 0 ≤ item.size) (hok : (BR.Disk.commit l key n item).2 = .ok)
+    (hfit : (l.res - n) + roundUp4k item.sizeOnDisk ≤ l.maxSize) :
+    ∃ e, find? (BR.Disk.commit l key n item).1 key = some e ∧ e.val = item := by
+  have hc := h.res_le_cur
+  have hu : unreserve l n = ({ l with cur := l.cur - n, res := l.res - n }, true) := by
+    unfold unreserve
+    have hz : (n == 0) = false := by simp; omega
+    have hneg : ¬ n < 0 := by omega
+    have hbad : (decide (l.cur - n < 0) || decide (l.res - n < 0)) = false := by simp; omega
+    simp [hz, hneg, hbad]
+  have hi1 : Inv { l with cur := l.cur - n, res := l.res - n } := by
+    have := inv_unreserve h n; rw [hu] at this; exact this
+  unfold BR.Disk.commit at hok ⊢
+  simp only [hn, if_true, hu, Bool.not_true, Bool.false_eq_true, if_false] at hok ⊢
+  cases hadd : add { l with cur := l.cur - n, res := l.res - n } key item with
+  | mk l2 o =>
+    simp only [hadd] at hok ⊢
+    cases o with
+    | refused => simp at hok
+    | stuck => simp at hok
+    | ok =>
+      simp only
+      have hok' : (add { l with cur := l.cur - n, res := l.res - n } key item).2 = .ok := by rw [hadd]
+      obtain ⟨e, hlast, hk, hval⟩ := BR.Props.C05.add_present_when_fits hi1 key item hok' hfit
+      rw [hadd] at hlast
+      have hi2 := (inv_add hi1 key item hv).1
+      rw [hadd] at hi2
+      have hmem : e ∈ l2.order := List.mem_of_getLast? hlast
+      have := BR.ListAux.find?_isSome_of_mem Elem.key hmem hi2.keys_nodup
+      refine ⟨e, ?_, hval⟩
+      unfold find?
+      rw [← hk]; exact this
+
+/-- **an indexed entry whose file is intact is served**: in every reachable state, a read of a key
+that has an index entry finds the entry's file (it exists, by the directory invariant) and returns
+its complete content, when lookup and open are not separated by other steps.  (With steps in
+between, the slow path and `read_whole_value` apply.) -/
+theorem indexed_entry_is_served (M H : Int) (h0 : 0 ≤ M) (h1 : M < 9223372036854775808) (puts : List (String × List Nat))
+    (gets : List String) (hpos : ∀ p ∈ puts, 0 < p.2.length) (sched : List Step) (j : Nat) (g : GetT) (e : Elem)
+    (hg : (BR.Conc.run (initState M H puts gets) sched).gets[j]? = some g) (hidle : g.pc = .idle)
+    (hfind : find? (BR.Conc.run (initState M H puts gets) sched).lru g.key = some e) :
+    ∃ f ∈ (BR.Conc.run (initState M H puts gets) sched).files, f.key = g.key ∧ f.rnd = e.val.random ∧
+      (f.corrupt = false →
+        (BR.Conc.step (BR.Conc.step (BR.Conc.run (initState M H puts gets) sched) (.getLookup j)) (.getOpen j)).gets[j]? =
+          some { g with pc := .done (some f.content) }) := by
+  obtain ⟨hc, hf⟩ := run_finv M H h0 h1 puts gets hpos sched
+  generalize BR.Conc.run (initState M H puts gets) sched = s at hc hf hg hfind
+  have hmem : e ∈ s.lru.order := List.mem_of_find?_eq_some hfind
+  have hkey : e.key = g.key := by
+    have := List.find?_some hfind
+    simpa using this
+  have htr : (e.key, e.val) ∈ tracked s.lru := by
+    simp only [tracked, List.mem_append]
+    exact Or.inl (List.mem_map.mpr ⟨e, hmem, rfl⟩)
+  obtain ⟨f, hfm, hfk, hfr⟩ := hf.t_file _ htr
+  refine ⟨f, hfm, hfk.trans hkey, hfr, ?_⟩
+  intro hnc
+  have hj : j < s.gets.length := get_set_lt hg
+  have hget : Lru.get s.lru g.key = ({ s.lru with order := s.lru.order.filter (fun x => !(x.key == g.key)) ++ [e] }, some e) := by
+    unfold Lru.get; rw [hfind]
+  -- after the lookup
+  have hs1 : BR.Conc.step s (.getLookup j) =
+      setGet { s with lru := { s.lru with order := s.lru.order.filter (fun x => !(x.key == g.key)) ++ [e] } } j { g with pc := .looked e } := by
+    simp only [BR.Conc.step, hg, hidle, hget]
+  rw [hs1]
+  have hg1 : (setGet { s with lru := { s.lru with order := s.lru.order.filter (fun x => !(x.key == g.key)) ++ [e] } } j
+      { g with pc := .looked e }).gets[j]? = some { g with pc := .looked e } := by
+    simp [setGet, hj]
+  have hfo : fileOf s.files g.key e.val.random = some f := by
+    have := fileOf_of_mem hf.f_nodup hfm
+    rw [hfk, hkey, hfr] at this
+    exact this
+  simp only [BR.Conc.step, hg1]
+  simp only [setGet, hfo, openResult, hnc, Bool.false_eq_true, if_false]
+  simp [hj]
+
 /-- **every read returns a whole value**: under every schedule, with files being corrupted at any
 time, a read that returns data returns the complete bytes of one upload to the same key whose file
 had been written completely — never a torn, mixed, truncated or foreign value -/
@@ -165,6 +251,8 @@ example : (f23.gets.map (fun g => match g.pc with | .done r => r | _ => none)) =
 #print axioms conc_quiescent_accounting
 #print axioms read_whole_value
 #print axioms conc_directory
+#print axioms indexed_entry_is_served
+#print axioms acked_upload_is_indexed
 #print axioms conc_quiescent_directory
 #print axioms put_step_keeps_identity
 end BR.Props.C07
